@@ -765,8 +765,8 @@ pub fn mixed_kinds() -> Vec<(u32, K)> {
         (3, K::Sub),
         (4, K::Mul),
         (2, K::MixedMul),
-        (1, K::Dot),
-        (1, K::Matmul),
+        (3, K::Dot),
+        (3, K::Matmul),
         (2, K::Sum),
         (1, K::CumSum),
         (1, K::Permute),
@@ -796,6 +796,7 @@ pub fn mixed_kinds() -> Vec<(u32, K)> {
         (3, K::Prf),
         (1, K::PermPrf),
         (8, K::Dup),
+        (4, K::DupSwap),
     ]
 }
 
@@ -825,6 +826,7 @@ pub fn meta_kinds() -> Vec<(u32, K)> {
         (1, K::DecomposeSwitch),
         (1, K::Prf),
         (4, K::Dup),
+        (2, K::DupSwap),
     ]
 }
 
